@@ -290,7 +290,22 @@ func runC13(c c13Case) vh.Result {
 		}
 		plan = append(plan, final)
 		acceptedBefore := accepted
+		evMark := len(evLog)
 		mu.Unlock()
+		// attemptsLost: connection attempts the client has made since this loss (Resuming events) that never reached
+		// the listening server. A few are expected while the server is down; many mean that the dials themselves fail
+		// (a machine short of ephemeral ports, or under extreme connection churn), after which the library's exponential
+		// back-off sleeps for minutes: the environment's doing, not the manager's.
+		attemptsLost := func() (lost, made int) {
+			mu.Lock()
+			defer mu.Unlock()
+			for _, e := range evLog[evMark:] {
+				if strings.Contains(e, "state=1 ") {
+					made++
+				}
+			}
+			return made - (accepted - acceptedBefore), made
+		}
 		if l.DownMs > 0 {
 			mu.Lock()
 			servers[len(servers)-1].StopListening()
@@ -369,8 +384,8 @@ func runC13(c c13Case) vh.Result {
 					}
 				}
 				mu.Unlock()
-				if got == 0 && resuming >= 5 {
-					res.Fail("harness-dials-never-arrived", "%s: after %s the client made %d attempts, none of which reached the listening server; connections: %s | events: %s", desc, label, resuming, cl2, ev)
+				if lost, made := attemptsLost(); lost >= 6 || (got == 0 && resuming >= 5) {
+					res.Fail("harness-dials-never-arrived", "%s: after %s the client made %d attempts, %d of which never reached the listening server; connections: %s | events: %s", desc, label, made, lost, cl2, ev)
 					return res
 				}
 				res.Fail("t/no-reconnection:"+l.End, "%s: after %s only %d of the expected %d reconnection attempts were made; connections: %s | events: %s | library goroutines:\n%s", desc, label, got, len(l.Fails)+1, cl2, ev, sb.String())
@@ -418,7 +433,17 @@ func runC13(c c13Case) vh.Result {
 			mu.Lock()
 			got := accepted - acceptedBefore
 			mu.Unlock()
-			res.Fail("t/no-reconnection:"+l.End, "%s: after %s no new session was established (%d connection attempts reached the server)", desc, label, got)
+			if lost, made := attemptsLost(); lost >= 6 {
+				mu.Lock()
+				log := strings.Join(connLog, "; ") + " | events: " + strings.Join(evLog, "; ")
+				mu.Unlock()
+				res.Fail("harness-dials-never-arrived", "%s: after %s the client made %d attempts, %d of which never reached the listening server; connections: %s", desc, label, made, lost, log)
+				return res
+			}
+			mu.Lock()
+			log := strings.Join(connLog, "; ") + " | events: " + strings.Join(evLog, "; ")
+			mu.Unlock()
+			res.Fail("t/no-reconnection:"+l.End, "%s: after %s no new session was established (%d connection attempts reached the server); connections: %s", desc, label, got, log)
 			return res
 		}
 		expectPost++
